@@ -82,7 +82,11 @@ def wf(prefix="state"):
     return [(l, e.replace("state.", prefix + ".")) for l, e in WF]
 
 
-RULE_RANGE = [("range", "0 <= startLine and startLine < endLine and endLine <= state.lineMax")]
+# what every block rule may rely on when it is called: a line range inside the table, a non-negative block indent, and -
+# when it is dispatched to produce tokens (not probed as a terminator) - a first line indented at least to the block
+RULE_RANGE = [("range", "0 <= startLine and startLine < endLine and endLine <= state.lineMax"),
+              ("blk-nonneg", "state.blkIndent >= 0"),
+              ("dispatched-line-indented", "implies(not silent, state.sCount[startLine] >= state.blkIndent)")]
 
 TABLES = ["state.bMarks", "state.eMarks", "state.tShift", "state.sCount", "state.bsCount"]
 
